@@ -39,7 +39,8 @@ TRUSTED = ['A1 float == real; A2 object arrays == float arrays',
            'z3 / cvc5 as deciders']
 ASSUMPTIONS = ['EpsAlg: no difference of the epsilon table is within 1e-60 of zero', 'finite real input']
 NOT_DECIDED = ['behaviour inside the convergence / irregularity guards beyond totality; rounding']
-BOUNDED = ['EpsAlg table identity: sequence length <= 6 (quick) / 9 (thorough) -- the state grows with the length',
+BOUNDED = ['dea-concrete: Dea on 42 concrete (sequence, limexp) cases incl. sequences that hit the guards on the first terms (floating point; finite values, error floor, agreement with dea3, transients recovered) -- executed, not proved (non-finite sentinels such as inf cannot be represented as reals in the symbolic harness)',
+           'EpsAlg table identity: sequence length <= 6 (quick) / 9 (thorough) -- the state grows with the length',
            'Dea: limexp enumerated (quick 3,5,7; thorough 3,5,7,9,11,21,61 with all admitted n for limexp <= 11 and '
            'n in {2,3,limexp-3,limexp-2,limexp-1}, cut positions {0,1,mid,last} for the large tables); table contents '
            'universally quantified']
@@ -64,6 +65,7 @@ def groups(tier):
             out.append(('dea[limexp=%d,n=%d]' % (L, n), ('dea', L, n)))
     out.append(('dea-first-terms', ('first',)))
     out.append(('shift-table', ('shift', tier)))
+    out.append(('dea-concrete', ('dconc',)))
     return out
 
 
@@ -285,6 +287,11 @@ def run_dea(limexp, n):
                             H = r['hyps']
                             solve.prove(tag + 'path%d:D6:new-element==cross-rule(e_1+1/(1/(e_1-e_3)+1/(e_2-e_1)-1/(e_1-e_0)))' % pi,
                                         lift(af[k1]).t == e1 + 1 / sss, H)
+                            # D2 inside the loop: on a continuing path every division had a non-zero denominator
+                            tt_ = z3.BoolVal(True)
+                            dfs = [lift(af[k1]).dfn, lift(r['result'][1]).dfn, lift(r['abserr'][1]).dfn]
+                            solve.prove(tag + 'path%d:D2:new-element,result,abserr-defined-on-the-continuing-path' % pi,
+                                        z3.And(*[d_ if d_ is not None else tt_ for d_ in dfs]), H)
                             solve.fact(tag + 'path%d:D6:frame:only-epstab[k_1]-is-written' % pi,
                                        all(lift(a_).t.eq(lift(b_).t) for j, (a_, b_) in enumerate(zip(af, bf)) if j != k1))
                             # result / abserr: either kept, or replaced by the new element with error |e2-e1| + |new-e2| + |e1-e0|
@@ -416,7 +423,15 @@ def run_shift(tier):
     return info
 
 
+def run_dconc():
+    from ndvc.concrete import dea_cases
+    cnt, bad = dea_cases(mods()['ex'])
+    solve.fact('Dea-on-concrete-sequences:finite,floor,first-three-terms==dea3,transients-recovered[%d cases]' % cnt, not bad, kind='bounded', note=str(bad[:2])[:400])
+    return {}
+
 def run_group(args):
+    if args[0] == 'dconc':
+        return run_dconc()
     if args[0] == 'shift':
         return run_shift(args[1])
     if args[0] == 'epsalg':
@@ -429,6 +444,8 @@ def run_group(args):
 
 
 def replay_case(ob):
+    if ob['name'].startswith('dea-concrete/'):
+        return dict(kind='C14.dconc')
     if ob['name'].startswith('shift-table/'):
         return dict(kind='C14.shift')
     import re
